@@ -53,6 +53,11 @@ pub enum VerSel {
     Same,
     Correct,
     Wrong,
+    /// the version the new code reports, spelled as a release tag ("v" + version), with a
+    /// trailing blank, or in another case: equal under a lenient comparison, not equal
+    NearCorrect(u8),
+    /// the current version spelled that way
+    NearSame(u8),
 }
 
 #[derive(Serialize, Deserialize, Clone, Debug, PartialEq, Eq, Hash)]
@@ -130,6 +135,16 @@ pub struct UExec {
 }
 
 pub struct WorldU;
+
+/// a spelling a lenient comparison would identify with `v`
+fn near_spelling(v: &str, k: u8) -> String {
+    match k % 4 {
+        0 => format!("v{}", v),
+        1 => format!("{} ", v),
+        2 => format!("V{}", v),
+        _ => format!("{}.0", v),
+    }
+}
 
 fn sstr_to_string(s: &SStr) -> String {
     let mut b = vec![0u8; s.len() as usize];
@@ -351,7 +366,12 @@ impl UExec {
                     VerSel::Same => cur_ver.clone(),
                     VerSel::Correct => after_ver.clone(),
                     VerSel::Wrong => "9.9.9".to_string(),
+                    VerSel::NearCorrect(k) => near_spelling(&after_ver, *k),
+                    VerSel::NearSame(k) => near_spelling(&cur_ver, *k),
                 };
+                if matches!(version, VerSel::NearCorrect(_) | VerSel::NearSame(_)) {
+                    ctx.count("probe.upgrader_version_requested_in_a_near_spelling");
+                }
                 let hash = self.hash_of_sel(wasm);
                 let margs = self.mig_args(data);
                 let args: SVec<Val> = (taddr.clone(), SStr::from_str(&env, &req_ver), hash.clone(), margs.clone()).into_val(&env);
@@ -564,7 +584,7 @@ impl World for WorldU {
                     let dummy = target as usize % NT == 6;
                     UOp::ViaUpgrader {
                         target,
-                        version: match rng.weighted(&[2, 6, 2]) { 0 => VerSel::Same, 1 => VerSel::Correct, _ => VerSel::Wrong },
+                        version: match rng.weighted(&[2, 6, 2, 2, 1]) { 0 => VerSel::Same, 1 => VerSel::Correct, 2 => VerSel::Wrong, 3 => VerSel::NearCorrect(rng.below(4) as u8), _ => VerSel::NearSame(rng.below(4) as u8) },
                         wasm: match rng.weighted(&[if dummy { 2 } else { 8 }, if dummy { 8 } else { 1 }, 1]) { 0 => WasmSel::Contract, 1 => WasmSel::Dummy, _ => WasmSel::Bogus },
                         cover: if p.faults && rng.chance(2, 5) { rng.pick(&[Cover::UpgradeOnly, Cover::MigrateOnly, Cover::Nobody, Cover::StrangerBoth, Cover::FormerBoth]).clone() } else { Cover::Both },
                         data: match rng.weighted(&[if dummy { 2 } else { 8 }, 1, if dummy { 8 } else { 1 }, 2]) { 0 => MigData::Unit, 1 => MigData::U32, 2 => MigData::Str, _ => MigData::None },
